@@ -477,7 +477,11 @@ def mask_case(ctx, idx, sym):
             # all limits are counts or RELATIVE tolerances: the kept set is invariant under S -> c S, c > 0 (exact for powers of two)
             c = 2.0 ** rng.choice((-660, -300, -60, 60, 300, 660))
             sb = {t: v * c for t, v in blocks.items()}
-            if all(np.all(np.isfinite(x)) and np.all(x / c == blocks[t]) for t, x in sb.items()):
+            tols = [x for k_ in ("tol", "tol_block") for x in (kw[k_].values() if isinstance(kw.get(k_), dict) else [kw.get(k_, 0)]) if 0 < x < INF]
+            nzmax = [float(np.max(np.abs(v))) for v in blocks.values() if np.any(v)]
+            normal = all(np.all((v == 0) | (np.abs(v) * min(c, 1.0) > 1e-290)) for v in blocks.values()) and \
+                (not tols or not nzmax or min(tols) * min(nzmax) * min(c, 1.0) > 1e-290)       # thresholds tol * max stay normal numbers
+            if normal and all(np.all(np.isfinite(x)) and np.all(x / c == blocks[t]) for t, x in sb.items()):
                 mc = read_mask(ctx, "truncation_mask", yastn.truncation_mask(build_S(sym, leg, sb, cfg), **kw), S, blocks, w)
                 if mc is not None:
                     ctx.count("scale_invariance_checked")
@@ -1091,14 +1095,19 @@ def eigh_trunc_case(ctx, idx, sym):
     from checks import c04
     E = c04.Env(ctx, idx, sym)
     rng = E.rng
-    h, k = c04.square_tensor(E, "herm")
+    h, k = c04.square_tensor(E, "herm", scale=False)
     hp, posL, posR = c04.hide_pairs(E, h, k)
     kind = rng.choice(("herm", "psd", "designed", "designed-psd"))
     state = rng.getstate()
     operand, left, right = c04.paired_operand(E, hp, posL, posR, count=False)
     flatL, flatR = F.flat_axes(operand, left), F.flat_axes(operand, right)
-    if kind != "herm" and hp.blocks:
-        hp = F.square_psd(hp, flatL, flatR) if kind == "psd" else F.redesign_eigh(rng, hp, flatL, flatR, kind == "designed-psd")
+    csc = F.draw_scale(rng)
+    if (kind != "herm" or csc != 1.0) and hp.blocks:
+        if kind != "herm":
+            hp = F.square_psd(hp, flatL, flatR) if kind == "psd" else F.redesign_eigh(rng, hp, flatL, flatR, kind == "designed-psd")
+        if csc != 1.0:
+            hp = F.scaled(hp, csc)
+            ctx.count("scaled_operands")
         r2 = random.Random()
         r2.setstate(state)
         E.rng = r2
